@@ -5,8 +5,10 @@ import (
 	"go/constant"
 	"go/token"
 	"go/types"
+	"os"
 	"sort"
 	"strings"
+	"sync"
 
 	"golang.org/x/tools/go/ssa"
 )
@@ -488,6 +490,9 @@ func (c *Ctx) dryRun(fr *Frame, loop map[*ssa.BasicBlock]bool, st *State) *write
 
 // havocWrites replaces everything in ws by fresh values.
 func (c *Ctx) havocWrites(fr *Frame, st *State, ws *writeSet, tag string) {
+	if ws.everything {
+		c.havocEverything(st)
+	}
 	var rk []regKey
 	for k := range ws.regs {
 		rk = append(rk, k)
@@ -812,16 +817,50 @@ func (c *Ctx) execInstr(fr *Frame, st *State, ins ssa.Instruction) []*exitInfo {
 
 type phiKey struct{ frame, from, to int }
 
+// exprText names an instruction by the text of its source line (stable under line shifts and
+// under renumbering of SSA temporaries); falls back on the SSA text.
 func exprText(fr *Frame, in ssa.Instruction) string {
-	// stable, line-independent description: instruction text with SSA temporaries
-	s := in.String()
-	if v, ok := in.(ssa.Value); ok {
-		_ = v
+	if fr != nil && fr.fn != nil && in.Pos().IsValid() {
+		if t := srcLine(fr.fn.Prog, in.Pos()); t != "" {
+			return t
+		}
 	}
+	s := in.String()
 	if len(s) > 60 {
 		s = s[:60]
 	}
 	return s
+}
+
+var srcCache sync.Map
+
+func srcLine(prog *ssa.Program, pos token.Pos) string {
+	p := prog.Fset.Position(pos)
+	if p.Filename == "" {
+		return ""
+	}
+	var lines []string
+	if v, ok := srcCache.Load(p.Filename); ok {
+		lines = v.([]string)
+	} else {
+		data, err := os.ReadFile(p.Filename)
+		if err != nil {
+			return ""
+		}
+		lines = strings.Split(string(data), "\n")
+		srcCache.Store(p.Filename, lines)
+	}
+	if p.Line < 1 || p.Line > len(lines) {
+		return ""
+	}
+	t := strings.TrimSpace(lines[p.Line-1])
+	if i := strings.Index(t, "//"); i > 0 {
+		t = strings.TrimSpace(t[:i])
+	}
+	if len(t) > 70 {
+		t = t[:70]
+	}
+	return t
 }
 
 func (c *Ctx) nilCheck(fr *Frame, in ssa.Instruction, addr *Val, p *Ptr) {
